@@ -289,6 +289,23 @@ PROPS = {
                       'against the definition (east = z x up), not by round trips',
         'level_note': 'finite anchor / point alphabets; GRS80 only (the converter has no other ellipsoid)',
     },
+    'C03': {
+        'sources': ['src/geodesy/LambertConverter.cpp', 'src/geodesy/EarthEllipsoid.cpp', 'src/geodesy/WGS84Coordinates.cpp'],
+        'harness': 'c03_lambert.cpp',
+        'flavour': 'asan',
+        'level': 'exploration',
+        'engine': 'lattice',
+        'rule': 'full lattice projection parameter set (secant and tangent, both hemispheres, five eccentricities, named '
+                'French zones) x point (dlat x dlon around the origin); per point the local scales along meridian and '
+                'parallel from central differences of the library own forward map, the inverse, origin and central-meridian '
+                'images. non-trivial = every point other than the projection origin and every standard-parallel check.',
+        'assumptions': ['finite differences with step 1e-5 rad: truncation + rounding below 1e-9 relative', 'a conversion that does not return within the per-case deadline is a violation (outcome hang)'],
+        'tiers': {'quick': {'deadline': 400, 'case_timeout': 15}, 'thorough': {'deadline': 3000, 'case_timeout': 15}},
+        'technique': 'bounded-exhaustive configuration/input lattice enumeration on the real code; geometric oracle (conformality, true scale) from finite differences of the implementation own forward map; watchdog for termination',
+        'level_text': 'complete enumeration of the stated parameter-set and point lattices in both hemispheres; the defining '
+                      'geometric properties are decided at every point rather than pinned values',
+        'level_note': 'lattice values only',
+    },
 }
 
 ENGINES = [
